@@ -159,6 +159,8 @@ def model_cases(chk, rng, budget_s):
     tile_opts = [None, {}, {"tilesize": 4}, {"tilesize": 1}, {"tilesize": 2}, {"tilesize": 0}, {"tilesize": -3},
                  {"tilesize": "x"}, {"tilesize": 2.5}, {"tilesize": True}, {"chunksize": 4},
                  {"tilesize": 8, "node-type-check": False}, {"tilesize": 64}]
+    chunk_opts = [None, {}, {"chunksize": 4}, {"chunksize": 1}, {"chunksize": 0}, {"chunksize": -3}, {"chunksize": "x"},
+                  {"chunksize": 2.5}, {"tilesize": 4}, {"chunksize": 2}, {"chunksize": 4, "force": True}]
     omp_opts = [None, {"reprod": True}, {"reprod": False}, {"reprod": True, "collapse": 2},
                 {"reprod": True, "force": True}, {"reprod": True, "sequential": True}, {"collapse": 2}]
     jobs = []
@@ -169,6 +171,9 @@ def model_cases(chk, rng, budget_s):
         for p in loops:
             for o in (tile_opts if prog.name in ("tile", "nests") else rng.sample(tile_opts, 4)):
                 jobs.append(("tile", prog, p, o))
+            for o in rng.sample(chunk_opts, 4):
+                jobs.append(("chunk", prog, p, o))
+            jobs.append(("swap", prog, p, rng.choice([None, {}])))
             for cname in OMP_FAMILY:
                 for o in rng.sample(omp_opts, 3) + [{"reprod": True}]:
                     for v in S.variants(S.trans_by_name(cname)):
@@ -192,8 +197,8 @@ def model_cases(chk, rng, budget_s):
         if time.time() > t_end:
             break
         try:
-            if j[0] == "tile":
-                c = M.case_tiling(j[1], j[2], j[3])
+            if j[0] in ("tile", "chunk", "swap"):
+                c = M.case_tiling(j[1], j[2], j[3], j[0])
             elif j[0] == "omp":
                 c = M.case_omp(j[1], j[2], j[3], j[4], j[5])
             elif j[0] == "red":
@@ -210,8 +215,8 @@ def model_cases(chk, rng, budget_s):
 def attempt_of_case(c):
     """(trans, variant, target, options) of a model case, for replay files"""
     d = c["desc"]
-    if c["kind"] == "tile":
-        return "LoopTiling2DTrans", "", ["node", d[1]], d[2]
+    if c["kind"] in ("tile", "chunk", "swap"):
+        return d[0], "", ["node", d[1]], d[2]
     if c["kind"] == "omp":
         return d[0], d[1], ["node", d[2]], d[3]
     if c["kind"] == "red":
@@ -311,14 +316,17 @@ def _run(chk, quick, rng, findings):
     chk.cov["timing_s"]["corpus_and_models"] = round(time.time() - t_start, 1)
     # -- the sweep (exploration) ----------------------------------------------------------------------
     budget = (75 if quick else 1320) - (time.time() - t_start)
-    specs = S.program_specs(rng, 2 if quick else 6)
+    specs = S.program_specs(rng, 2 if quick else 6, nstmts=3 if quick else 5)
     specs += [_spec_of(n) for n in EXTRA]
     if quick:
-        generic = [s for s in specs if s["kind"] in ("generic", "minif", "alg")]
+        generic = [s for s in specs if s["kind"] in ("generic", "alg")]
+        small = [s for s in specs if s["kind"] == "minif"]
         psy = [s for s in specs if s["kind"] == "psy"]
-        specs = rng.sample(generic, 3) + rng.sample(psy, 2)
+        specs = rng.sample(small, 2) + rng.sample(generic, 1) + rng.sample(psy, 1) + rng.sample(generic + small, 1)
     else:
         rng.shuffle(specs)
+    changed = S.changed_classes()
+    chk.cov["changed_since_fingerprint"] = [c.__name__ for c in changed]
     stats = collections.Counter()
     late = collections.Counter()
     other, programs_done, attempts = {}, [], 0
@@ -334,8 +342,13 @@ def _run(chk, quick, rng, findings):
             sw = S.Sweep(prog, rng, time.time() + share, stats)
         except Exception as err:  # pylint: disable=broad-except
             raise common.Infra(f"cannot build program {prog.name}: {type(err).__name__}: {err}") from err
-        order = list(classes)
+        order = [c for c in classes if c not in changed]
         rng.shuffle(order)
+        if changed:      # change-directed budget: changed classes first, unpruned, every option
+            final = sw.deadline
+            sw.deadline = time.time() + 0.6 * share
+            sw.run(list(changed), prune_after=None, keep=1.0, max_opts=None)
+            sw.deadline = final
         sw.run(order, prune_after=(2 if quick else 5), keep=(0.03 if quick else 0.15),
                max_opts=(6 if quick else None))
         attempts += sw.n
